@@ -274,7 +274,7 @@ def letter(value: CFV) -> str:
     return _MI[value]
 
 
-def make_cer(rc=None, fc=None, hints=None, packages=None) -> ContentEvaluationResult:
+def make_cer(rc=None, fc=None, hints=None, packages=None, extras=False) -> ContentEvaluationResult:
     """
     rc: key -> 'F'/'U'/'K';  fc: key -> True | False | [False, message];  hints: key -> text|None
     A fulfilled constraint never carries a message; an unfulfilled one carries "E<key>" unless given.
@@ -287,12 +287,18 @@ def make_cer(rc=None, fc=None, hints=None, packages=None) -> ContentEvaluationRe
             fcs[key] = EvaluatedFormatConstraint(True, None)
         else:
             fcs[key] = EvaluatedFormatConstraint(False, f"E{key}")
-    return ContentEvaluationResult(
-        hints=dict(hints or {}),
-        format_constraints=fcs,
-        requirement_constraints={k: _M[v] for k, v in (rc or {}).items()},
-        packages=dict(packages) if packages is not None else {},
-    )
+    hints = dict(hints or {})
+    rcs = {k: _M[v] for k, v in (rc or {}).items()}
+    packages = dict(packages) if packages is not None else {}
+    if extras:
+        # a content evaluation result usually covers a whole message: entries for keys that the expression at hand does
+        # not mention, among them a hint without a text (Dict[str, Optional[str]]) - none of them may matter
+        hints.setdefault("899", None)
+        hints.setdefault("898", "wird hier nicht gebraucht")
+        rcs.setdefault("498", CFV.UNKNOWN)
+        fcs.setdefault("997", EvaluatedFormatConstraint(False, "E997 (unused)"))
+        packages.setdefault("99P", "[498] U [997]")
+    return ContentEvaluationResult(hints=hints, format_constraints=fcs, requirement_constraints=rcs, packages=packages)
 
 
 def clear_parse_caches():
